@@ -35,6 +35,11 @@ def gen(tier, rnd):
             for claimed in (0, 9, 10, 11, 12, 74, 75, 76, 5000, 65535):
                 case(win, b12, 1, ['N', 'N', 'F 10', 'G 10 %d' % claimed, 'N', 'R 10', 'R 11', 'G 11 %d' % claimed, 'N', 'R 12'])
             case(win, b12, 1, ['N', 'N', 'F 300', 'G 300 300', 'G 300 0', 'G 300 299', 'N', 'R 300', 'R 301'])
+    # replay of the only / the newest accepted number (window holds just that one), also right after a jump that clears the window
+    for b12 in (0, 1):
+        case(32, b12, 1, ['N', 'R 0', 'R 1', 'N', 'R 0', 'R 1', 'R 2'])
+        for j in (40, 64, 65, 200):
+            case(32, b12, 1, ['N', 'N', 'F %d' % (2 + j), 'R %d' % (2 + j), 'N', 'R %d' % (3 + j), 'R %d' % (2 + j)])
     # a forgery arriving while the highest accepted number is still 0 (the roll-back must restore a zero, too)
     for claimed in (3, 5, 40, 100):
         case(32, 0, 1, ['N', 'G 0 %d' % claimed, 'F %d' % claimed, 'R %d' % claimed, 'N', 'R 0'])
